@@ -430,6 +430,12 @@ func (e *Engine) visitInstr(fr *frame, instr ssa.Instruction) (ret bool, jumped 
 	return false, false
 }
 
+var opaquePrefixes = []string{
+	"go.opentelemetry.io/otel/attribute.",
+	"go.opentelemetry.io/otel/metric.With",
+	"go.opentelemetry.io/otel/trace.With",
+}
+
 func deref(t types.Type) types.Type {
 	if p, ok := t.Underlying().(*types.Pointer); ok {
 		return p.Elem()
@@ -585,6 +591,13 @@ func (e *Engine) callSSA(caller *frame, pos token.Pos, fn *ssa.Function, args []
 			g.siteOK = e.siteOK(pos)
 		}
 		return ext(fr, args)
+	}
+	// option constructors whose values no harness observes: opaque (zero result)
+	for _, pre := range opaquePrefixes {
+		if strings.HasPrefix(key, pre) {
+			e.noteStub(pre + "* (opaque)")
+			return zeroResults(fn)
+		}
 	}
 	if fn.Blocks == nil || e.redirects[key] != nil {
 		// intrinsic of the harness runtime?
